@@ -25,13 +25,15 @@ import (
 )
 
 type Case struct {
-	Key      int
-	Cert     hx.Hex
-	OID      []int
-	Content  hx.Hex
-	AuthCode bool // go through authenticode.SignAuthenticode(stream) instead of SignPKCS7
-	OpenSSL  bool // also ask the openssl CLI (sampled: process spawns are slow)
-	TZMin    int  // process time zone offset from UTC in minutes while signing (the signing time attribute is UTC whatever the zone)
+	Key       int
+	Cert      hx.Hex
+	OID       []int
+	Content   hx.Hex
+	AuthCode  bool // go through authenticode.SignAuthenticode(stream) instead of SignPKCS7
+	ImgAlg    int  // AuthCode: the crypto.Hash the stream is hashed with for the SpcIndirectDataContent (0 = SHA-256); the SignedData around it stays SHA-256
+	TwinFirst bool // before the signer's certificate, the parsed object is asked about a certificate with the same issuer and serial and another key
+	OpenSSL   bool // also ask the openssl CLI (sampled: process spawns are slow)
+	TZMin     int  // process time zone offset from UTC in minutes while signing (the signing time attribute is UTC whatever the zone)
 }
 
 func genElements(t *rapid.T) []byte {
@@ -73,7 +75,7 @@ func genCase(t *rapid.T) Case {
 	} else {
 		id = gen.Ident(!hx.Thorough() && rapid.IntRange(0, 3).Draw(t, "cheap") != 0).Draw(t, "id")
 	}
-	c := Case{Key: id.Key, Cert: id.Cert.Raw}
+	c := Case{Key: id.Key, Cert: id.Cert.Raw, TwinFirst: rapid.IntRange(0, 3).Draw(t, "twin_first") == 0}
 	switch rapid.IntRange(0, 9).Draw(t, "oidkind") {
 	case 0, 1, 2, 3:
 		c.OID = []int{1, 2, 840, 113549, 1, 7, 1}
@@ -87,6 +89,7 @@ func genCase(t *rapid.T) Case {
 		if rapid.Bool().Draw(t, "authcode") {
 			c.AuthCode = true
 			c.Content = gen.SizedBytes(4096, 0, 1, 64).Draw(t, "stream")
+			c.ImgAlg = rapid.SampledFrom([]int{0, 0, 0, int(crypto.SHA1), int(crypto.SHA384), int(crypto.SHA512)}).Draw(t, "image_digest_algorithm")
 		} else {
 			c.Content = genElements(t)
 		}
@@ -242,15 +245,24 @@ func checkCase(c Case) error {
 		hx.Class("process_time_zone_not_utc")
 	}
 	var blob []byte
+	imgAlg := crypto.SHA256
+	if c.ImgAlg != 0 {
+		imgAlg = crypto.Hash(c.ImgAlg)
+	}
 	if c.AuthCode {
-		blob, err = authenticode.SignAuthenticode(id.Priv(), id.Cert, bytes.NewReader(c.Content), crypto.SHA256)
+		blob, err = authenticode.SignAuthenticode(id.Priv(), id.Cert, bytes.NewReader(c.Content), imgAlg)
 		if err != nil {
 			return fmt.Errorf("SignAuthenticode: %v", err)
 		}
-		d := sha256.Sum256(c.Content)
-		content, err = authenticode.CreateSpcIndirectDataContent(d[:], crypto.SHA256)
+		ih := imgAlg.New()
+		ih.Write(c.Content)
+		d := ih.Sum(nil)
+		content, err = authenticode.CreateSpcIndirectDataContent(d[:], imgAlg)
 		if err != nil {
 			return fmt.Errorf("CreateSpcIndirectDataContent: %v", err)
+		}
+		if imgAlg != crypto.SHA256 {
+			hx.Class("SignAuthenticode_with_another_image_digest_algorithm")
 		}
 		// the content must be the specification's SpcIndirectDataContent for that digest
 		if !bytes.HasSuffix(content, d[:]) {
@@ -387,6 +399,14 @@ func checkCase(c Case) error {
 	if err := recovered("after parsing"); err != nil {
 		return err
 	}
+	if c.TwinFirst {
+		if tw, terr := gen.Twin(id, (id.Key+1)%len(gen.Keys())); terr == nil {
+			if ok, err := p.Verify(tw.Cert); ok && err == nil {
+				return fmt.Errorf("the library's own verification accepts the produced signature for a certificate with the signer's issuer and serial and another key")
+			}
+			hx.Class("asked_about_a_same_named_certificate_with_another_key_first")
+		}
+	}
 	if ok, err := p.Verify(id.Cert); !ok || err != nil {
 		return fmt.Errorf("the library's own verification rejects the produced signature: %v, %v", ok, err)
 	}
@@ -399,7 +419,7 @@ func checkCase(c Case) error {
 	if err := recovered("after two verifications"); err != nil {
 		return err
 	}
-	if c.AuthCode {
+	if c.AuthCode && imgAlg == crypto.SHA256 {
 		a, err := authenticode.ParseAuthenticode(blob)
 		if err != nil {
 			return fmt.Errorf("ParseAuthenticode of SignAuthenticode output: %v", err)
